@@ -43,6 +43,7 @@ type c20IDCase struct {
 	BusyMS  int  // sqlite busy timeout of the concurrent phase
 	Pre     int  // uploads created one after the other before the concurrent phase
 	Reopen  bool // close and reopen the database in the middle of the sequential prefix
+	Two     bool // two db.DB handles on the same file (two server processes), used alternately
 }
 
 type c20Made struct {
@@ -88,6 +89,25 @@ func c20IDCheck(c c20IDCase) *kit.Fail {
 		panic("c20 monitor: open: " + err.Error())
 	}
 	defer func() { d.Close() }()
+	// optional second handle on the same database file, as a second server
+	// process would have; handles[i%len] is used for operation i
+	handles := func(busy int) []*db.DB {
+		hs := []*db.DB{d}
+		if c.Two {
+			d2, err := db.OpenSQL("sqlite3", dsn(busy))
+			if err != nil {
+				panic("c20 monitor: open second handle: " + err.Error())
+			}
+			hs = append(hs, d2)
+		}
+		return hs
+	}
+	closeExtra := func(hs []*db.DB) {
+		for _, h := range hs[1:] {
+			h.Close()
+		}
+	}
+	hs := handles(10000)
 	ctx := context.Background()
 	var clock atomic.Int64
 	var mu sync.Mutex
@@ -98,15 +118,17 @@ func c20IDCheck(c c20IDCase) *kit.Fail {
 	r := kit.NewRand(c.Seed, "c20-ids-seq", 0)
 	for i := 0; i < c.Pre; i++ {
 		if c.Reopen && i == c.Pre/2 {
+			closeExtra(hs)
 			if err := d.Close(); err != nil {
 				panic("c20 monitor: close: " + err.Error())
 			}
 			if d, err = db.OpenSQL("sqlite3", dsn(10000)); err != nil {
 				panic("c20 monitor: reopen: " + err.Error())
 			}
+			hs = handles(10000)
 		}
 		call := clock.Add(1)
-		u, err := d.NewUpload(ctx)
+		u, err := hs[i%len(hs)].NewUpload(ctx)
 		ret := clock.Add(1)
 		if err != nil {
 			return kit.Failf("newupload-failed-without-contention", "sequential creation %d of %d (database reopened: %v) failed: %v; IDs so far: %s", i+1, c.Pre, c.Reopen && i >= c.Pre/2, err, c20IDList(made))
@@ -121,13 +143,15 @@ func c20IDCheck(c c20IDCase) *kit.Fail {
 		made = append(made, c20Made{idhist.Op{Client: 0, Call: call, Ret: ret, ID: u.ID}, tag, nrec, ok})
 	}
 
-	// ---- concurrent phase on a handle with a short busy timeout
+	// ---- concurrent phase on handles with a short busy timeout
+	closeExtra(hs)
 	if err := d.Close(); err != nil {
 		panic("c20 monitor: close: " + err.Error())
 	}
 	if d, err = db.OpenSQL("sqlite3", dsn(c.BusyMS)); err != nil {
 		panic("c20 monitor: reopen: " + err.Error())
 	}
+	hs = handles(c.BusyMS)
 	var wg sync.WaitGroup
 	var createErrs, finishErrs atomic.Int64
 	for cl := 0; cl < c.Clients; cl++ {
@@ -137,7 +161,7 @@ func c20IDCheck(c c20IDCase) *kit.Fail {
 			r := kit.NewRand(c.Seed, "c20-ids-client", uint64(cl))
 			for i := 0; i < c.Iters; i++ {
 				call := clock.Add(1)
-				u, err := d.NewUpload(ctx)
+				u, err := hs[(cl+i)%len(hs)].NewUpload(ctx)
 				ret := clock.Add(1)
 				if err != nil {
 					createErrs.Add(1) // a failed creation is a no-op
@@ -180,6 +204,7 @@ func c20IDCheck(c c20IDCase) *kit.Fail {
 	kit.Count("porcupine_unknown", int64(res.PorcupineUnknown))
 
 	// ---- all-or-nothing per upload, on a quiet database
+	closeExtra(hs)
 	if err := d.Close(); err != nil {
 		panic("c20 monitor: close: " + err.Error())
 	}
@@ -286,18 +311,19 @@ func c20IDGen(r *kit.Rand, i int) c20IDCase {
 		c.Pre = r.Range(11, 25) // past N=10: ".10" must follow ".9"
 	}
 	c.Reopen = r.Bool()
+	c.Two = r.Bool()
 	return c
 }
 
 func TestVerifC20IDs(t *testing.T) {
 	kit.Run(t, "C20", kit.Class[c20IDCase]{
-		Name: "c20-concurrent-ids", Quick: 10, Thorough: 500,
-		Gen: c20IDGen, Check: c20IDCheck, MinNonTrivial: 6,
+		Name: "c20-concurrent-ids", Quick: 30, Thorough: 600,
+		Gen: c20IDGen, Check: c20IDCheck, MinNonTrivial: 18,
 		// Serial: every case opens the database several times and concurrent
 		// db.OpenSQL calls write the shared sqlite3 driver's ConnectHook
 		// (outside this property); the concurrency under test is inside a case.
 		Serial:     true,
 		NonTrivial: func(c c20IDCase) bool { v, ok := c20IDOutcomes.Load(c.ID); return ok && v.(bool) },
-		Rule: "0-25 sequential uploads (database optionally closed and reopened half way), then 2-16 goroutines x 10-30 (thorough 10-50) iterations of NewUpload -> 0-3 InsertRecord -> Commit (70%) / Abort on one file-backed sqlite database with a busy timeout of 0-50 ms; recorded {client, call stamp, returned ID or error, return stamp}; -race. Non-trivial: at least as many successful concurrent creations as clients, some overlapping in time, porcupine decided every day partition.",
+		Rule:       "0-25 sequential uploads (database optionally closed and reopened half way; optionally through two db.DB handles on the same file used alternately), then 2-16 goroutines x 10-30 (thorough 10-50) iterations of NewUpload -> 0-3 InsertRecord -> Commit (70%) / Abort on one file-backed sqlite database with a busy timeout of 0-50 ms; recorded {client, call stamp, returned ID or error, return stamp}; -race. Non-trivial: at least as many successful concurrent creations as clients, some overlapping in time, porcupine decided every day partition.",
 	})
 }
